@@ -52,6 +52,8 @@ pub struct Opts {
     pub mask: Option<u8>,
     /// order in which the setters present are called: index into the 24 permutations of
     /// (mode, ecl, version, mask); 0 = that order. The final option values are the same for every order.
+    /// 24..=71: with decoy calls first (see `apply`). 72..=74: setter order 0, and the input is handed over in another
+    /// shape (see `deliver`): the bytes are the same.
     pub order: u8,
 }
 
@@ -84,7 +86,7 @@ impl Opts {
     pub fn apply(&self, b: &mut QRBuilder) {
         // orders 24..=71: every setter present is first called with a DIFFERENT value (last value wins), then the
         // real values follow in permutation (order % 24); 24..=47 and 48..=71 use the two other modes as decoy
-        if self.order >= 24 {
+        if (24..72).contains(&self.order) {
             if let Some(m) = self.mode {
                 b.mode(MODES[(m as usize + if self.order >= 48 { 2 } else { 1 }) % 3]);
             }
@@ -98,7 +100,7 @@ impl Opts {
                 b.mask(MASKS[(k as usize + 3) % 8]);
             }
         }
-        for which in permutation(self.order) {
+        for which in permutation(if self.order >= 72 { 0 } else { self.order }) {
             match which {
                 0 => {
                     if let Some(m) = self.mode {
@@ -199,10 +201,35 @@ pub fn classify(r: Result<QRCode, fast_qr::qr::QRCodeError>) -> Outcome {
     }
 }
 
+/// The input as the caller's container: 72 = a Vec with 9000 bytes of spare capacity, 73 = a Vec grown by pushes
+/// (capacity left wherever doubling put it), 74 = a String when the bytes are UTF-8 (else a Vec cut to size from a boxed
+/// slice); anything else = an exact Vec. Same bytes in every case.
+pub fn deliver(input: &[u8], order: u8) -> QRBuilder {
+    match order {
+        72 => {
+            let mut v = Vec::with_capacity(input.len() + 9000);
+            v.extend_from_slice(input);
+            QRBuilder::new(v)
+        }
+        73 => {
+            let mut v = Vec::new();
+            for &b in input {
+                v.push(b);
+            }
+            QRBuilder::new(v)
+        }
+        74 => match std::str::from_utf8(input) {
+            Ok(s) => QRBuilder::new(s.to_string()),
+            Err(_) => QRBuilder::new(input.to_vec().into_boxed_slice().into_vec()),
+        },
+        _ => QRBuilder::new(input.to_vec()),
+    }
+}
+
 /// One trace: new -> setters (fixed order mode, ecl, version, mask) -> build
 pub fn build(input: &[u8], o: &Opts) -> Outcome {
     match guarded(|| {
-        let mut b = QRBuilder::new(input.to_vec());
+        let mut b = deliver(input, o.order);
         o.apply(&mut b);
         b.build()
     }) {
